@@ -46,7 +46,7 @@ def with_tc(fn):
 
 def build(tier, seed):
     obs = []
-    T = 60 if tier == "quick" else 240
+    T = 180 if tier == "quick" else 600
     # O1: escape kernel, one symbolic code point
     obs.append(Ob(
         oid="O1.kernel", sig="cp: int, conv: bool", pre=CP_PRE + CONV_PRE, templates=True, timeout=T,
